@@ -475,3 +475,145 @@ pub mod proofs {
 pub fn replay(h: &str, b: &[u8]) -> (bool, String) { let d = w_default(); let r = reference(); (d == r, format!("default() = {:?}, documented value = {:?}", d, r)) }
 '''.replace("REF", ref)
     return Prog(name, text, ["default"], {"describe": desc + " entry=" + entry})
+
+
+# ------------------------------------------------------------------------------------------------ C12 / C10
+ALL_STD = ["Clone", "Debug", "Default", "PartialEq", "Eq", "PartialOrd", "Ord", "Hash"]
+C12_TYPES = ["u8", "i16", "bool", "Option<u8>", "W<u8>"]
+
+
+def c12_prog(name, rng, entry):
+    """a type without helper attributes deriving everything through derive_ex, and its twin with the standard derives"""
+    is_enum = rng.random() < 0.55
+    generic = rng.random() < 0.3
+    lifetime = rng.random() < 0.2
+    raw = rng.random() < 0.2
+    attrs = " ".join(a for a in ["#[repr(C)]" if rng.random() < 0.15 else "", "#[non_exhaustive]" if rng.random() < 0.15 else ""] if a)
+    fnames = ["r#type", "r#match", "r#fn", "r#loop"] if raw else ["a", "b", "c", "d"]
+    vnames = ["r#A", "r#Self_", "r#C", "r#D", "r#E"] if raw else ["A", "B", "C", "D", "E"]
+    def mkfields(kind):
+        n = 0 if kind == "unit" else rng.randint(0, 4)
+        return [rng.choice(C12_TYPES) for _ in range(n)]
+    def ty_decl(t):
+        t2 = t.replace("u8", "T") if (generic and rng.random() < 0.7) else t
+        return t2
+    if is_enum:
+        nv = rng.choice([0, 1, 1, 2, 3, 4, 5])
+        vs = [(vnames[i], rng.choice(["unit", "tuple", "named"])) for i in range(nv)]
+        vs = [(n, k, mkfields(k)) for n, k in vs]
+    else:
+        k = rng.choice(["unit", "tuple", "named"])
+        vs = [("X", k, mkfields(k))]
+    used_t = False
+    decls = []
+    for (vn, kind, fs) in vs:
+        ds = []
+        for t in fs:
+            d = ty_decl(t)
+            used_t = used_t or ("T" in d)
+            ds.append(d)
+        decls.append(ds)
+    if lifetime:
+        # a borrowed field in the last variant / struct
+        pass
+    generic = generic and used_t
+    g_decl = "<T: Copy = u8>" if (generic and rng.random() < 0.3 and False) else ("<T>" if generic else "")
+    where = " where T: Sized" if (generic and rng.random() < 0.4) else ""
+    XI = "X<u8>" if generic else "X"
+    def body(kind, ds, pub):
+        if kind == "unit":
+            return ""
+        if kind == "named":
+            return " { " + ", ".join("%s%s: %s" % (pub, fnames[i], d) for i, d in enumerate(ds)) + " }"
+        return "(" + ", ".join(pub + d for d in ds) + ")"
+    derive_list = list(ALL_STD)
+    default_variant = None
+    if is_enum:
+        if len(vs) == 0:
+            derive_list.remove("Default")
+        else:
+            default_variant = rng.randrange(len(vs))
+            if vs[default_variant][1] != "unit":
+                # the standard derive only accepts unit default variants
+                units = [i for i, v in enumerate(vs) if v[1] == "unit"]
+                if units:
+                    default_variant = units[0]
+                else:
+                    derive_list.remove("Default")
+                    default_variant = None
+    def item(kind_kw, with_default_attr):
+        if is_enum:
+            parts = []
+            for i, ((vn, kind, fs), ds) in enumerate(zip(vs, decls)):
+                parts.append(("#[default] " if (with_default_attr and i == default_variant) else "") + vn + body(kind, ds, ""))
+            return "%s pub enum X%s%s { %s }" % (attrs, g_decl, where, ", ".join(parts))
+        (vn, kind, fs), ds = vs[0], decls[0]
+        if kind == "named":
+            return "%s pub struct X%s%s%s" % (attrs, g_decl, where, body(kind, ds, "pub "))
+        return "%s pub struct X%s%s%s;" % (attrs, g_decl, body(kind, ds, "pub "), where)
+    lst = ", ".join(derive_list)
+    head = ("#[derive_ex::derive_ex(%s)]\n" % lst) if entry == "attr" else ("#[derive(derive_ex::Ex)]\n#[derive_ex(%s)]\n" % lst)
+    td = head + item("", True) + "\n"
+    twin = "pub mod twin {\n    use crate::support::*;\n    #[derive(%s)]\n    %s\n}\n" % (lst, item("", True))
+    # conversion, construction
+    def pat(v, pre):
+        vn, kind, fs = v
+        path = ("X::" + vn) if is_enum else "X"
+        if kind == "unit":
+            return path
+        bs = ["%s%d" % (pre, i) for i in range(len(fs))]
+        if kind == "named":
+            return path + " { " + ", ".join("%s: %s" % (fnames[i], b) for i, b in enumerate(bs)) + " }"
+        return path + "(" + ", ".join(bs) + ")"
+    def ctor(v, path_prefix, exprs):
+        vn, kind, fs = v
+        path = (path_prefix + "X::" + vn) if is_enum else (path_prefix + "X")
+        if kind == "unit":
+            return path
+        if kind == "named":
+            return path + " { " + ", ".join("%s: %s" % (fnames[i], e) for i, e in enumerate(exprs)) + " }"
+        return path + "(" + ", ".join(exprs) + ")"
+    TI = "twin::" + XI
+    if is_enum and not vs:
+        conv = "pub fn conv(x: &%s) -> %s { match *x {} }\n" % (XI, TI)
+        mk = ""
+    else:
+        arms = "\n".join("        %s => %s," % (pat(v, "x"), ctor(v, "twin::", ["x%d.clone()" % i for i in range(len(v[2]))])) for v in vs)
+        conv = "pub fn conv(x: &%s) -> %s {\n    match x {\n%s\n    }\n}\n" % (XI, TI, arms)
+        n = len(vs)
+        marms = "\n".join("            %d => %s," % (i, ctor(v, "", ["<%s as Mk>::mk(s)" % t for t in v[2]])) for i, v in enumerate(vs[:-1]))
+        mk = "impl Mk for %s {\n    fn mk<S: Src>(s: &mut S) -> Self {\n        match s.u8() %% %d {\n%s\n            _ => %s,\n        }\n    }\n}\n" % (
+            XI, n, marms, ctor(vs[-1], "", ["<%s as Mk>::mk(s)" % t for t in vs[-1][2]]))
+    wrappers, proofs, replays, harnesses = [], [], [], []
+    if not (is_enum and not vs):
+        def add2(h, ret, derived, twin_e, mode):
+            wrappers.append("#[cfg_attr(kani, kani::ensures(|r: &%s| *r == {%s}))]\npub fn w_%s(x: &%s, y: &%s) -> %s { %s }" % (ret, twin_e, h, XI, XI, ret, derived))
+            if mode == "assert":
+                proofs.append("    #[kani::proof]\n    pub fn %s() { let mut s = KaniSrc; let x = <%s as Mk>::mk(&mut s); let y = <%s as Mk>::mk(&mut s); let r = w_%s(&x, &y); assert!(r == {%s}, \"postcondition of w_%s\"); kani::cover!(true); }" % (h, XI, XI, h, twin_e.replace("(x)", "(&x)").replace("(y)", "(&y)"), h))
+            else:
+                proofs.append("    #[kani::proof_for_contract(w_%s)]\n    pub fn %s() { let mut s = KaniSrc; let x = <%s as Mk>::mk(&mut s); let y = <%s as Mk>::mk(&mut s); let _r = w_%s(&x, &y); kani::cover!(true); }" % (h, h, XI, XI, h))
+            replays.append('        "%s" => { let x = <%s as Mk>::mk(&mut s); let y = <%s as Mk>::mk(&mut s); let d = w_%s(&x, &y); let r = {%s}; (d == r, format!("x={:?} y={:?}: derive_ex gives {:?}, the standard derive gives {:?}", conv(&x), conv(&y), d, r)) }' % (
+                h, XI, XI, h, twin_e.replace("(x)", "(&x)").replace("(y)", "(&y)")))
+            harnesses.append(h)
+        add2("eq", "bool", "PartialEq::eq(x, y)", "PartialEq::eq(&conv(x), &conv(y))", "contract")
+        add2("partial_cmp", "Option<Ordering>", "PartialOrd::partial_cmp(x, y)", "PartialOrd::partial_cmp(&conv(x), &conv(y))", "assert")
+        add2("cmp", "Ordering", "Ord::cmp(x, y)", "Ord::cmp(&conv(x), &conv(y))", "contract")
+        add2("clone", "bool", "conv(&Clone::clone(x)) == conv(x) && { let mut z = Clone::clone(y); Clone::clone_from(&mut z, x); conv(&z) == conv(x) }", "true", "assert")
+        add2("hash", "bool", "!(x == y) || { let mut h1 = Rec::new(); let mut h2 = Rec::new(); Hash::hash(x, &mut h1); Hash::hash(y, &mut h2); h1 == h2 }", "true", "assert")
+        if "Default" in derive_list:
+            add2("default", "bool", "conv(&<%s as Default>::default()) == <%s as Default>::default()" % (XI, TI), "true", "assert")
+    specs = ["{:?}", "{:#?}", "{:6?}", "{:<6?}", "{:+?}", "{:.1?}", "{:x?}", "{:#06x?}", "{:^9?}", "{:>08?}"]
+    if is_enum and not vs:
+        ncheck = "pub fn ncheck() -> Vec<String> { Vec::new() }\n"
+    else:
+        fm = "\n".join('        if format!("%s", x) != format!("%s", conv(&x)) { out.push(format!("Debug `%s` differs: derive_ex {:?} vs std {:?}", format!("%s", x), format!("%s", conv(&x)))); }' % (sp, sp, sp.replace("{", "{{").replace("}", "}}"), sp, sp) for sp in specs)
+        ncheck = ("pub fn ncheck() -> Vec<String> {\n    let mut out = Vec::new();\n    let mut st: u64 = 0x1234567;\n    for _ in 0..300 {\n        let mut v = Vec::new(); for _ in 0..40 { st ^= st << 13; st ^= st >> 7; st ^= st << 17; v.push((st >> 11) as u8); }\n"
+                  "        let mut s = VecSrc { v, i: 0 };\n        let x = <%s as Mk>::mk(&mut s);\n%s\n        if !out.is_empty() { break; }\n    }\n    out\n}\n" % (XI, fm))
+    text = td + "\n" + twin + conv + mk + "\n".join(wrappers) + "\n#[cfg(kani)]\npub mod proofs {\n    use super::*;\n%s\n}\n" % "\n".join(proofs)
+    text += "pub fn replay(h: &str, b: &[u8]) -> (bool, String) {\n    let mut s = VecSrc { v: b.to_vec(), i: 0 };\n    match h {\n%s\n        _ => (true, String::from(\"unknown harness\")),\n    }\n}\n" % "\n".join(replays)
+    text += ncheck
+    desc = re.sub(r"\s+", " ", item("", True)) + " entry=" + entry
+    return Prog(name, text, harnesses, {"describe": desc}, ncheck=True)
+
+
+import re
